@@ -87,6 +87,11 @@ u32 x_verif_sym2(u32 k, u64 pos, u64 end, u32 a, u32 m, u64 *np) {
 }
 #endif
 
+#ifndef VF_REAL
+/* an assert() of the library (e.g. memory_input constructed with line 0) reached from translated code is a failed check */
+void x___assert_fail(u8 *a, u8 *b, u32 c, u8 *d) { CHECK(0, "library assert() failed"); }
+#endif
+
 static out_t sp_succ(u64 q, u64 far) { out_t o = { 1, q, 0, 0, far }; return o; }
 static out_t sp_fail(u64 p, u64 far) { out_t o = { 0, p, 0, 0, far }; return o; }
 static out_t sp_div(u64 p) { out_t o = { 4, p, 0, 0, p }; return o; }
